@@ -698,11 +698,11 @@ func init() {
 		"==": {Lbp: 60, Led: ledInfix},
 		"!=": {Lbp: 60, Led: ledInfix},
 
-		"|":  {Lbp: 70, Led: ledInfix},
-		"^":  {Lbp: 80, Led: ledInfix, Nud: complementNud},
-		"&":  {Lbp: 90, Nud: skipNud, Led: ledInfix},
-		"<<": {Lbp: 100, Led: ledInfix},
-		">>": {Lbp: 100, Led: ledInfix},
+		"|":  {Lbp: 110, Led: ledInfix},
+		"^":  {Lbp: 110, Led: ledInfix, Nud: complementNud},
+		"&":  {Lbp: 120, Nud: skipNud, Led: ledInfix},
+		"<<": {Lbp: 120, Led: ledInfix},
+		">>": {Lbp: 120, Led: ledInfix},
 
 		"+": {Lbp: 110, Led: ledInfix},
 		"-": {Lbp: 110, Led: ledInfix, Nud: negateNud},
